@@ -464,13 +464,14 @@ func c12RunSched(line string) string {
 	// cleanup: release everything, let every function finish, stop the consumer
 	ctl.Uninstall()
 	openGate()
+	cleanupDeadline := time.Now().Add(1500 * time.Millisecond)
 	for _, t := range senders {
 		if t != nil {
-			t.Wait(2 * time.Second)
+			t.Wait(time.Until(cleanupDeadline))
 		}
 	}
 	if closerStarted {
-		closer.Wait(2 * time.Second)
+		closer.Wait(time.Until(cleanupDeadline) + 100*time.Millisecond)
 	} else {
 		func() { defer func() { recover() }(); box.close() }()
 	}
@@ -601,11 +602,12 @@ func c12RunStress(line string) string {
 	go func() { wg.Wait(); close(done) }()
 	select {
 	case <-done:
-	case <-time.After(20 * time.Second):
-		return "viol deadlock senders still blocked after 20 s"
+	case <-time.After(c13StressPatience(20 * time.Second)):
+		atomic.AddInt32(&c13StressViols, 1)
+		return "viol deadlock senders still blocked"
 	}
 	if !withClose {
-		deadline := time.Now().Add(20 * time.Second)
+		deadline := time.Now().Add(c13StressPatience(20 * time.Second))
 		for atomic.LoadInt32(&delivered) < int32(n*m) && time.Now().Before(deadline) && viol == "" {
 			time.Sleep(50 * time.Microsecond)
 		}
@@ -615,6 +617,7 @@ func c12RunStress(line string) string {
 			return "viol " + viol
 		}
 		if d != int32(n*m) {
+			atomic.AddInt32(&c13StressViols, 1)
 			return fmt.Sprintf("viol lost delivered=%d of %d", d, n*m)
 		}
 		if atomic.LoadInt32(&box.selfBad) != 0 {
@@ -624,11 +627,12 @@ func c12RunStress(line string) string {
 	}
 	select {
 	case <-closeDone:
-	case <-time.After(20 * time.Second):
+	case <-time.After(c13StressPatience(20 * time.Second)):
+		atomic.AddInt32(&c13StressViols, 1)
 		return "viol deadlock Close did not return"
 	}
 	// every message whose Post returned before Close began must run
-	deadline := time.Now().Add(10 * time.Second)
+	deadline := time.Now().Add(c13StressPatience(10 * time.Second))
 	for {
 		ok := true
 		for i := 0; i < n; i++ {
